@@ -433,7 +433,9 @@ Definition rle_push (x : obsv) (acc : list (obsv * Z)) : list (obsv * Z) :=
 Definition rle (l : list obsv) : obsv :=
   OL (map (fun p => OL [fst p; OZ (snd p)]) (rev (fold_left (fun acc x => rle_push x acc) l []))).
 
-Definition headers (from count : nat) : list Z := map Z.of_nat (seq from count).
+Fixpoint zseq (from : Z) (n : nat) : list Z :=
+  match n with O => [] | S n' => from :: zseq (from + 1) n' end.
+Definition headers (from count : Z) : list Z := zseq from (Z.to_nat count).
 
 Inductive case :=
 | CDur (guard chk : bool) (s n : option Z)
@@ -447,7 +449,7 @@ Inductive case :=
 | CSel (chk : bool) (same_key : bool) (ko : mkind) (vo : Z) (kn : mkind) (vn : Z)
 | CFrame (max : Z) (bs : list Z) (body : Z)       (* body: 0 decodes, 1 rejected, 9 panics *)
 | CMux (fixed : bool) (na nc : Z) (bs : list Z)
-| CMuxSweep (fixed : bool) (na nc : Z) (from count : nat) (tail : list Z)
+| CMuxSweep (fixed : bool) (na nc : Z) (from count : Z) (tail : list Z)
 | CParts (hs : list Z).
 
 Definition run_case (c : case) : obsv :=
